@@ -48,6 +48,12 @@ def main():
             sh(["git", "-C", "/repo", "checkout", "--", "."])
             continue
         entry = {"applied": True, "property": meta["property"], "checks": {}}
+        # evidence files are rewritten by every check run: keep the ones of the unchanged tree
+        saved = {}
+        for pid in [meta["property"]] + meta.get("also", []):
+            ev = os.path.join(VERIF, "evidence", f"{pid}.json")
+            if os.path.exists(ev):
+                saved[ev] = open(ev).read()
         try:
             for pid in [meta["property"]] + meta.get("also", []):
                 t = time.time()
@@ -59,6 +65,8 @@ def main():
             sh(["git", "-C", "/repo", "reset", "-q", "HEAD", "--", "."])
             sh(["git", "-C", "/repo", "checkout", "--", "."])
             sh(["git", "-C", "/repo", "clean", "-fdq", "crates"])
+            for ev, content in saved.items():
+                open(ev, "w").write(content)
         entry["caught"] = any(c["rc"] == 1 and c["violations"] for c in entry["checks"].values())
         results[sid] = entry
         json.dump(results, open(results_path, "w"), indent=1)
